@@ -9,6 +9,8 @@ import (
 	"fmt"
 	"math"
 	"strings"
+	"sync"
+	"unsafe"
 
 	comet "github.com/wizenheimer/comet"
 	"verifharness/internal/core"
@@ -23,6 +25,9 @@ type distCmd struct {
 	S    uint32     `json:"s,omitempty"`
 	T    uint32     `json:"t,omitempty"`
 	Qs   [][]uint32 `json:"qs,omitempty"`
+	// batch: NQ > 0 appends NQ queries of the target's dimension drawn from QSeed (keeps big batches small on disk)
+	NQ    int    `json:"nq,omitempty"`
+	QSeed uint64 `json:"qseed,omitempty"`
 }
 
 type distCase struct {
@@ -276,6 +281,28 @@ func genDist(r *core.Rand, tier string) *distCase {
 		}
 	}
 	c.Cmds = append(c.Cmds, distCmd{Op: "helpers", A: [][]uint32{A, B, C}[r.Intn(3)], S: anyScale()})
+	if dim <= 4 && r.Chance(0.25) { // rare big batches around the sizes where an implementation might switch strategy
+		nq := []int{255, 256, 257, 511, 512, 513, 514, 515, 1023, 1024, 1025, 1026, 2049, 4097}[r.Intn(14)]
+		c.Cmds = append(c.Cmds, distCmd{Op: "batch", Kind: metrics[r.Intn(3)], A: B, NQ: nq, QSeed: r.U64()})
+	}
+	if r.Chance(0.35) { // one reused buffer, contents rewritten between the calls
+		qs := [][]uint32{A, B, C}
+		if r.Chance(0.4) {
+			qs = append(qs, make([]uint32, dim)) // zeros
+		}
+		if r.Bool() {
+			qs = append(qs, A)
+		}
+		perm := r.Perm(len(qs))
+		var seq [][]uint32
+		for _, i := range perm {
+			seq = append(seq, qs[i])
+		}
+		c.Cmds = append(c.Cmds, distCmd{Op: "reuse", A: [][]uint32{A, B, C}[r.Intn(3)], Qs: seq})
+	}
+	if r.Chance(0.35) { // arguments are row views (cap > len) of one flat buffer
+		c.Cmds = append(c.Cmds, distCmd{Op: "rows", Qs: [][]uint32{A, B, C}, S: posScale()})
+	}
 	if r.Chance(0.08) { // mismatched lengths: longer second argument is read partially, shorter panics
 		short := append([]uint32(nil), B...)
 		if r.Bool() || len(short) == 0 {
@@ -287,6 +314,8 @@ func genDist(r *core.Rand, tier string) *distCase {
 	}
 	return c
 }
+
+var distMu sync.Mutex
 
 func sameBits(a, b []float32) bool {
 	if len(a) != len(b) {
@@ -387,9 +416,20 @@ func execDist(c *distCase) []string {
 				dab, dsab, datb, daa, b01(unch)))
 		case "batch":
 			t := clone32(a0)
-			qs := make([][]float32, len(cmd.Qs))
+			qbits := append([][]uint32(nil), cmd.Qs...)
+			if cmd.NQ > 0 {
+				qr := core.NewRand(cmd.QSeed, "dist-batch-queries")
+				for i := 0; i < cmd.NQ; i++ {
+					q := make([]float32, len(a0))
+					for j := range q {
+						q[j] = float32(qr.Norm())
+					}
+					qbits = append(qbits, core.Bits(q))
+				}
+			}
+			qs := make([][]float32, len(qbits))
 			var qh []string
-			for i, q := range cmd.Qs {
+			for i, q := range qbits {
 				qs[i] = core.FromBits(q)
 				qh = append(qh, core.VecHex(qs[i]))
 			}
@@ -400,7 +440,7 @@ func execDist(c *distCase) []string {
 				el[i] = d.Calculate(qs[i], t)
 			}
 			unch := sameBits(t, a0)
-			for i, q := range cmd.Qs {
+			for i, q := range qbits {
 				unch = unch && sameBits(qs[i], core.FromBits(q))
 			}
 			qstr := "-"
@@ -408,6 +448,141 @@ func execDist(c *distCase) []string {
 				qstr = strings.Join(qh, ",")
 			}
 			lines = append(lines, fmt.Sprintf("op batch %s %s %s => %s %s %s", cmd.Kind, core.VecHex(a0), qstr, hexList(res), hexList(el), b01(unch)))
+		case "reuse":
+			// every function must depend only on the CURRENT contents of its arguments: one buffer,
+			// rewritten in place between the calls (serialised: a process-wide cache would otherwise be
+			// disturbed by the other workers and the case would not replay alone)
+			func() {
+				distMu.Lock()
+				defer distMu.Unlock()
+				w := clone32(a0)
+				pw, ew := cosD.Preprocess(clone32(w))
+				buf := make([]float32, len(a0))
+				var steps, seq []string
+				for _, qb := range cmd.Qs {
+					v := core.FromBits(qb)
+					if len(v) != len(buf) {
+						continue
+					}
+					copy(buf, v)
+					seq = append(seq, core.VecHex(v))
+					p, ep := cosD.Preprocess(buf)
+					dd := "-"
+					if ep == nil && ew == nil {
+						dd = core.Hex32(cosD.Calculate(p, pw))
+					}
+					nz := comet.Normalize(buf)
+					nr := comet.Norm(buf)
+					l2 := dists["l2"].Calculate(buf, w)
+					bl := dists["l2"].CalculateBatch([][]float32{buf}, w)
+					cb := cosD.CalculateBatch([][]float32{buf}, w)
+					cc := cosD.Calculate(buf, w)
+					unch := sameBits(buf, v) && sameBits(w, a0)
+					steps = append(steps, strings.Join([]string{optVecHex(p, ep), dd, core.VecHex(nz), core.Hex32(nr), core.Hex32(l2), hexList(bl), core.Hex32(cc), hexList(cb), b01(unch)}, ";"))
+				}
+				// the same again through the in-place variants on one persistent buffer
+				for _, qb := range cmd.Qs {
+					v := core.FromBits(qb)
+					if len(v) != len(buf) {
+						continue
+					}
+					copy(buf, v)
+					st := "ok"
+					if e := cosD.PreprocessInPlace(buf); e != nil {
+						st = "zero"
+					}
+					steps = append(steps, "inplace;"+st+";"+core.VecHex(buf))
+				}
+				lines = append(lines, fmt.Sprintf("op reuse %s %s => %s", core.VecHex(a0), strings.Join(seq, ","), strings.Join(steps, " ")))
+			}()
+		case "rows":
+			// arguments are row views into one flat buffer (cap > len), sentinels before, between and
+			// behind: nothing but a result may be written — not the argument, not the memory behind it
+			{
+				rows := from2(cmd.Qs)
+				n := len(rows[0])
+				const guard = 3
+				sent := math.Float32frombits(0x4640e6b7) // 12345.679
+				flat := make([]float32, 0, guard+len(rows)*(n+1)+2*n+guard)
+				for i := 0; i < guard; i++ {
+					flat = append(flat, sent)
+				}
+				offs := make([]int, len(rows))
+				for i, rw := range rows {
+					offs[i] = len(flat)
+					flat = append(flat, rw...)
+					flat = append(flat, sent) // one sentinel between rows
+				}
+				for i := 0; i < 2*n+guard; i++ { // spare capacity ≥ len behind the last row, filled with sentinels
+					flat = append(flat, sent)
+				}
+				snap := clone32(flat)
+				view := func(i int) []float32 { return flat[offs[i] : offs[i]+n] } // cap runs to the end of flat
+				inside := func(x []float32) bool {
+					if len(x) == 0 {
+						return false
+					}
+					p := uintptr(unsafe.Pointer(&x[0]))
+					lo := uintptr(unsafe.Pointer(&flat[0]))
+					return p >= lo && p < lo+uintptr(len(flat))*4
+				}
+				intact, fresh := true, true
+				chk := func() {
+					if !sameBits(flat, snap) {
+						intact = false
+						copy(flat, snap)
+					}
+				}
+				s := math.Float32frombits(cmd.S)
+				var pres, nzs, scs []string
+				for i := range rows {
+					p, e := cosD.Preprocess(view(i))
+					chk()
+					pres = append(pres, optVecHex(p, e))
+					if e == nil && inside(p) {
+						fresh = false
+					}
+					nz := comet.Normalize(view(i))
+					chk()
+					nzs = append(nzs, core.VecHex(nz))
+					sc := comet.Scale(view(i), s)
+					chk()
+					scs = append(scs, core.VecHex(sc))
+					if inside(nz) || inside(sc) {
+						fresh = false
+					}
+					_ = comet.Norm(view(i))
+					chk()
+				}
+				vs := make([][]float32, len(rows))
+				for i := range rows {
+					vs[i] = view(i)
+				}
+				var bs []string
+				for _, k := range metrics {
+					bs = append(bs, hexList(dists[k].CalculateBatch(vs, view(0))))
+					chk()
+					_ = dists[k].Calculate(view(1%len(rows)), view(0))
+					chk()
+				}
+				// in place on the middle row: only that row may change
+				mid := len(rows) / 2
+				st := "ok"
+				if e := cosD.PreprocessInPlace(view(mid)); e != nil {
+					st = "zero"
+				}
+				after := clone32(view(mid))
+				copy(view(mid), snap[offs[mid]:offs[mid]+n])
+				onlyRow := sameBits(flat, snap)
+				copy(flat, snap)
+				comet.NormalizeInPlace(view(mid))
+				after2 := clone32(view(mid))
+				copy(view(mid), snap[offs[mid]:offs[mid]+n])
+				onlyRow = onlyRow && sameBits(flat, snap)
+				lines = append(lines, fmt.Sprintf("op rows %s %s => %s %s %s %s %s %s %s %s %s %s", vecsHex(rows), core.Hex32(s),
+					strings.Join(pres, ","), strings.Join(nzs, ","), strings.Join(scs, ","), strings.Join(bs, ";"),
+					st, core.VecHex(after), core.VecHex(after2), b01(intact), b01(fresh), b01(onlyRow)))
+			}
 		case "pre":
 			d := dists[cmd.Kind]
 			a := clone32(a0)
@@ -459,7 +634,7 @@ func nonTrivialDist(lines, replies []string) bool {
 func init() {
 	register(&core.Typed[distCase]{
 		StreamName: "dist", Prop: "C18",
-		RuleText: "pairs/triples of dimension 1..512 (shapes: random, equal, opposite, orthogonal, nearly parallel 1e-4..1e-7, 1-2 ulp apart, zero, integer lattice, power-of-two / decimal scaled copies, axis vectors, collinear third points; magnitudes 1e-6..1e6 and components spread over 5 decades; ~5% extreme magnitudes 1e19..1e25 / 1e-30..1e-25 compared bit-for-bit only) through Calculate (3 kinds, both argument orders, self), CalculateBatch (0..6 queries), Preprocess, PreprocessInPlace, Norm, Scale, Normalize, NormalizeInPlace and mismatched lengths; a case is non-trivial when at least two law evaluations ran on in-range vectors; distinct = distinct request streams",
+		RuleText: "pairs/triples of dimension 1..512 (shapes: random, equal, opposite, orthogonal, nearly parallel 1e-4..1e-7, 1-2 ulp apart, zero, integer lattice, power-of-two / decimal scaled copies, axis vectors, collinear third points; magnitudes 1e-6..1e6 and components spread over 5 decades; ~5% extreme magnitudes 1e19..1e25 / 1e-30..1e-25 compared bit-for-bit only) through Calculate (3 kinds, both argument orders, self), CalculateBatch (0..6 queries), Preprocess, PreprocessInPlace, Norm, Scale, Normalize, NormalizeInPlace and mismatched lengths; rare big batches (255..4097 queries, also as a corpus case), one reused buffer rewritten in place between calls of every function, arguments passed as row views (cap > len) of a flat buffer with sentinels whose memory must stay intact; a case is non-trivial when at least two law evaluations ran on in-range vectors; distinct = distinct request streams",
 		NCases: func(tier string) int {
 			if tier == "thorough" {
 				return 80000
